@@ -50,3 +50,64 @@ Example C13_contract_satisfiable :
      EraseCost 30000; RecordRefund (-4800); RecordRefund 15000; SetFinalRefund true; SpendAll]
   /\ in_u64 100000.
 Proof. vm_compute. intuition discriminate. Qed.
+
+(* ---- the invariant along the reference interpreter (Model/Step.v, Model/Evm.v; proofs in
+   Proofs/EvmGasProofs.v).  The frame-accounting contract under which C13_history_inv is stated
+   is not an assumption there: every meter the interpreter produces is inside the invariant. *)
+From RevmV Require Import Model.Step Model.Evm Proofs.EvmGasProofs.
+
+(* one instruction, whatever its outcome (continue, end — halts included —, call, create) *)
+Theorem C13_interpreter_step_meter_invariant :
+  forall W G F I G' x g',
+    step W G F I = (G', x) -> sres_gas x = Some g' -> gas_inv (i_gas I) ->
+    gas_inv g' /\ limit g' = limit (i_gas I) /\ remaining g' <= remaining (i_gas I).
+Proof. exact step_meter_invariant. Qed.
+
+(* a complete frame, through any nesting of calls and creates, for every result *)
+Theorem C13_interpreter_meter_invariant :
+  forall f W G F I G' r,
+    exec f W G F I = XDone (G', r) -> gas_inv (i_gas I) ->
+    gas_inv (ir_gas r) /\ limit (ir_gas r) = limit (i_gas I) /\
+    remaining (ir_gas r) <= remaining (i_gas I).
+Proof. exact exec_meter_invariant. Qed.
+
+(* the result of a CALL / CREATE as the parent sees it (precompiles, early failures, code deposit) *)
+Theorem C13_interpreter_call_result_invariant :
+  forall f W G c G' r,
+    do_call W (exec f W) G c = XDone (G', r) -> in_u64 (cq_gas_limit c) ->
+    gas_inv (ir_gas r) /\ limit (ir_gas r) = cq_gas_limit c /\ remaining (ir_gas r) <= cq_gas_limit c.
+Proof. exact do_call_meter_invariant. Qed.
+Theorem C13_interpreter_create_result_invariant :
+  forall f W G c G' r a,
+    do_create W (exec f W) G c = XDone (G', r, a) -> in_u64 (kq_gas_limit c) ->
+    gas_inv (ir_gas r) /\ limit (ir_gas r) = kq_gas_limit c /\ remaining (ir_gas r) <= kq_gas_limit c.
+Proof. exact do_create_meter_invariant. Qed.
+
+(* where the parent takes back the child's gas (insert_call_outcome / insert_create_outcome):
+   the erase_cost is inside the contract [op_ok], the parent's meter is inside the invariant again
+   and strictly below where it was before the instruction *)
+Theorem C13_interpreter_call_outcome_within_contract :
+  forall f W G F I G1 c I1 G2 r I2,
+    gas_inv (i_gas I) ->
+    step W G F I = (G1, SCall c I1) -> do_call W (exec f W) G1 c = XDone (G2, r) ->
+    insert_call_outcome I1 c r = Some I2 ->
+    (EvmProofs.okrev r = true -> op_ok (i_gas I1) (EraseCost (remaining (ir_gas r)))) /\
+    gas_inv (i_gas I2) /\ limit (i_gas I2) = limit (i_gas I) /\ rem I2 < rem I.
+Proof. exact call_outcome_within_contract. Qed.
+Theorem C13_interpreter_create_outcome_within_contract :
+  forall f W G F I G1 c I1 G2 r a I2,
+    gas_inv (i_gas I) ->
+    step W G F I = (G1, SCreate c I1) -> do_create W (exec f W) G1 c = XDone (G2, r, a) ->
+    insert_create_outcome I1 r a = Some I2 ->
+    (EvmProofs.okrev r = true -> op_ok (i_gas I1) (EraseCost (remaining (ir_gas r)))) /\
+    gas_inv (i_gas I2) /\ limit (i_gas I2) = limit (i_gas I) /\ rem I2 < rem I.
+Proof. exact create_outcome_within_contract. Qed.
+
+(* non-vacuity: a frame of a concrete world run from a fresh meter *)
+Example C13_interpreter_example :
+  gas_inv (i_gas (istate_new 100000)) /\
+  match do_call neg_world (exec 50 neg_world) neg_state neg_call2 with
+  | XDone (_, r) => ir_gas r = mkGas 50000 49894 (-2000)
+  | _ => False
+  end.
+Proof. split; [vm_compute; intuition discriminate|vm_compute; reflexivity]. Qed.
